@@ -1,7 +1,8 @@
 //! C08 A SourceMapSource reproduces the attribution of the map it was given
 
+use proptest::collection::vec;
 use proptest::prelude::*;
-use rspack_sources::{ConcatSource, RawSource, Source, SourceExt, SourceMapSource, SourceMapSourceOptions, WithoutOriginalOptions};
+use rspack_sources::{BoxSource, ConcatSource, RawSource, Source, SourceExt, SourceMapSource, SourceMapSourceOptions, WithoutOriginalOptions};
 use serde::{Deserialize, Serialize};
 
 use crate::build::source_map;
@@ -26,6 +27,10 @@ pub struct Case {
   /// `inner_source_map: None`; neither field may change anything that is streamed or declared
   #[serde(default)]
   pub full: Option<(Option<String>, bool)>,
+  /// 0-3 enclosing sources between the SourceMapSource and the ConcatSource whose map() is read, innermost first:
+  /// 0 = ReplaceSource without replacements, 1 = CachedSource, 2 = ConcatSource[x, ""], 3 = ConcatSource[x]
+  #[serde(default)]
+  pub wraps: Vec<u8>,
 }
 
 fn sms_name(c: &Case) -> String {
@@ -39,8 +44,8 @@ fn sms_name(c: &Case) -> String {
 
 fn strategy() -> BoxedStrategy<Case> {
   let cfg = GenCfg::positional();
-  (text(true, 14), abs_map(cfg), any::<bool>(), 0u8..8u8, 0u8..8u8)
-    .prop_map(move |(t, am, dups, name_sel, f)| {
+  (text(true, 14), abs_map(cfg), any::<bool>(), 0u8..8u8, 0u8..8u8, prop_oneof![1 => Just(vec![]), 2 => vec(0u8..4u8, 1..=3)])
+    .prop_map(move |(t, am, dups, name_sel, f, wraps)| {
       let am = if dups { am.with_dups() } else { am };
       let map = concretize_map(&t, &am, true);
       let full = match f {
@@ -50,7 +55,7 @@ fn strategy() -> BoxedStrategy<Case> {
         3 => Some((None, false)),
         _ => None,
       };
-      Case { text: t, map, name_sel, full }
+      Case { text: t, map, name_sel, full, wraps }
     })
     .boxed()
 }
@@ -180,6 +185,39 @@ impl Prop for C08 {
         let emap = enclosing.map(&opts(columns, false));
         let eat = attr_from_map(emap.as_ref(), t, columns)?;
         cmp("map() of an enclosing ConcatSource", t, &eat, &want, columns, &format!("mappings={:?}", emap.as_ref().map(|m| m.mappings().to_string())))?;
+        // (3c) ... with other enclosing sources in between (a ReplaceSource without replacements, a CachedSource,
+        // ConcatSources): each hands the chunks, sources and names on, translating indices where it keeps tables of its own
+        if !case.wraps.is_empty() {
+          let wrapped = || {
+            let mut s: BoxSource = mk_sms().boxed();
+            for w in &case.wraps {
+              s = match w % 4 {
+                0 => rspack_sources::ReplaceSource::new(s).boxed(),
+                1 => rspack_sources::CachedSource::new(s).boxed(),
+                2 => ConcatSource::new([s, RawSource::from("").boxed()]).boxed(),
+                _ => ConcatSource::new([s]).boxed(),
+              };
+            }
+            s
+          };
+          let ws = stream(&wrapped(), &opts(columns, false));
+          let (wtext, wat) = ws.attr();
+          if &wtext != t {
+            return Err(format!("columns={columns}: stream through {:?} reassembles to {wtext:?}, not {t:?}", case.wraps));
+          }
+          cmp(&format!("streamed through enclosing sources {:?}", case.wraps), t, &wat, &want, columns, &format!("chunks={:?}", ws.chunks))?;
+          let enclosing = ConcatSource::new([wrapped(), RawSource::from("").boxed()]);
+          let emap = enclosing.map(&opts(columns, false));
+          let eat = attr_from_map(emap.as_ref(), t, columns)?;
+          cmp(
+            &format!("map() of ConcatSource[{:?}(sms), \"\"]", case.wraps),
+            t,
+            &eat,
+            &want,
+            columns,
+            &format!("mappings={:?}", emap.as_ref().map(|m| m.mappings().to_string())),
+          )?;
+        }
         // (3b) ... behind a sibling that is mapped right up to the junction (no line break): the sibling is 1
         // character long, or as long as the column of one of M's segments on a later line; the characters of T
         // are looked up behind it (full columns only: with columns=false T's first line shares its generated
